@@ -215,6 +215,9 @@ type config struct {
 	VT    string `json:"value_type"`
 	Depth int    `json:"depth"`
 	Holds int    `json:"inflight_rounds"` // how many broadcast rounds per execution may be held in flight (b/e moves)
+	// HoldCost: every held round shortens the execution by this many moves (the hold is a deviation that
+	// is paid for): an execution with h held rounds has at most Depth - h*HoldCost moves.
+	HoldCost int `json:"hold_cost"`
 }
 
 type failure struct{ key, what string }
@@ -232,6 +235,7 @@ type engine struct {
 	planArmed    []bool // prediction: the replica owes its peers a broadcast (a round would send something)
 	planRearmed  []bool // prediction: the replica wrote or committed since its open round began
 	planHolds    int    // b moves used
+	planCount    int    // moves planned so far
 
 	round            []bool // the replica's broadcast round is in flight (calls held on the wire)
 	pendingSent      []set  // the snapshot that round carries
@@ -300,6 +304,10 @@ func parseMove(s string) (move, error) {
 
 func (e *engine) enabled() []move {
 	var out []move
+	if e.planCount >= e.cfg.Depth-e.planHolds*e.cfg.HoldCost {
+		return out // the held rounds have been paid for with moves
+	}
+	mayHold := e.planHolds < e.cfg.Holds && e.planCount+1 <= e.cfg.Depth-(e.planHolds+1)*e.cfg.HoldCost
 	for i := 0; i < e.cfg.N; i++ {
 		if e.planSeq[i] < stride {
 			out = append(out, move{kind: "w", i: i})
@@ -313,7 +321,7 @@ func (e *engine) enabled() []move {
 			out = append(out, move{kind: "t", i: i})
 			// holding a round that would send nothing is the same as not ticking: only offered when the
 			// replica owes a broadcast (a prediction; a wrong one is counted, see silent_holds)
-			if e.planArmed[i] && e.planHolds < e.cfg.Holds {
+			if e.planArmed[i] && mayHold {
 				out = append(out, move{kind: "b", i: i})
 			}
 		}
@@ -336,6 +344,7 @@ func (e *engine) isEnabled(m move) bool {
 // plan fixes the update id of the move and advances the planning state.
 func (e *engine) plan(m move) move {
 	n := e.cfg.N
+	e.planCount++
 	switch m.kind {
 	case "w":
 		m.id = m.i*stride + e.planSeq[m.i]
@@ -686,7 +695,7 @@ func (e *engine) stateKey() string {
 				ren(e.committed[i]), ren(e.inflight[i]), ren(e.recvd[i]), ren(e.recvdInSection[i]), ren(e.stable[i]), ren(e.xsent[i]), e.planSeq[i],
 				e.round[i], e.planRound[i], ren(e.pendingSent[i]), e.planArmed[i], e.planRearmed[i], e.planInflight[i])
 		}
-		k := strings.Join(parts, "") + fmt.Sprintf("A%x X%x G%x T%x C%x s%d h%d", ren(e.aborted), e.xstate, ren(e.xgot), ren(e.tickedInSection), ren(e.committedInRound), e.planSeq[n], e.planHolds)
+		k := strings.Join(parts, "") + fmt.Sprintf("A%x X%x G%x T%x C%x s%d h%d", ren(e.aborted), e.xstate, ren(e.xgot), ren(e.tickedInSection), ren(e.committedInRound), e.planSeq[n], e.planHolds) // (planCount is covered by the explorer's remaining budget)
 		if best == "" || k < best {
 			best = k
 		}
@@ -845,7 +854,7 @@ func latencies() map[string]int64 {
 
 func plan(thorough bool) []config {
 	if !thorough {
-		return []config{{N: 2, VT: "gcounter", Depth: 6, Holds: 1}}
+		return []config{{N: 2, VT: "gcounter", Depth: 6, Holds: 1, HoldCost: 1}}
 	}
 	// cheapest first: each run gets an equal share of the time left, the last one inherits the rest
 	return []config{{N: 2, VT: "aworset", Depth: 6, Holds: 1}, {N: 2, VT: "lww", Depth: 6, Holds: 1}, {N: 3, VT: "gcounter", Depth: 6, Holds: 1},
